@@ -366,7 +366,7 @@ VARIANTS = [
     B("c20-dihedral-raw-box", ORDERP, "            box = np.array(system.box[:3])\n            vector1 = pbc_dist_coordinate(vector1, box)", "            box = np.array(system.box)\n            vector1 = pbc_dist_coordinate(vector1, box)", "R-20.2"),
     B("c20-distancevel-not-declared", ORDERP, "        super().__init__(description=txt, velocity=True)\n        self.periodic = periodic\n        self.index = index", "        super().__init__(description=txt, velocity=False)\n        self.periodic = periodic\n        self.index = index", "R-20.3", control=True),
     B("c20-reverse-never-recomputes", PATH, "        if order_function.velocity_dependent and rev_v:\n            for phasepoint in new_path.phasepoints:\n                phasepoint.order = order_function.calculate(phasepoint)", "        if False:\n            for phasepoint in new_path.phasepoints:\n                phasepoint.order = order_function.calculate(phasepoint)", "R-20.3"),
-    B("c20-dihedral-normalise-before-wrap", ORDERP, "        vector3 = pos[self.index[3]] - pos[self.index[2]]\n        if self.periodic", "        vector3 = pos[self.index[3]] - pos[self.index[2]]\n        vector2 /= np.linalg.norm(vector2)\n        if self.periodic", "R-20.4", control=True, why="seeded C20_a"),
+    B("c20-dihedral-normalise-before-wrap", ORDERP, "        vector3 = pos[self.index[3]] - pos[self.index[2]]\n", "        vector3 = pos[self.index[3]] - pos[self.index[2]]\n        vector2 /= np.linalg.norm(vector2)\n", "R-20.4", control=True, why="seeded C20_a"),
     B("c20-distance-wrap-of-scaled", ORDERP, "            box = np.array(system.box[:3])\n            delta = pbc_dist_coordinate(delta, box)\n        lamb = np.sqrt(np.dot(delta, delta))\n        return [lamb]", "            box = np.array(system.box[:3])\n            delta = pbc_dist_coordinate(0.5 * delta, box) * 2\n        lamb = np.sqrt(np.dot(delta, delta))\n        return [lamb]", "R-20.4"),
     K("c20-keep-puckering-array-index", ORDERP, "        pos = system.pos[list(self.index)]", "        pos = np.array(system.pos[list(self.index)])"),
     K("c20-keep-distance-copy-then-inplace", ORDERP, "        delta = system.pos[self.index[1]] - system.pos[self.index[0]]\n        if self.periodic and system.box is not None:\n            box = np.array(system.box[:3])\n            delta = pbc_dist_coordinate(delta, box)\n        lamb = np.sqrt(np.dot(delta, delta))\n        return [lamb]", "        delta = np.array(system.pos[self.index[1]])\n        delta -= system.pos[self.index[0]]\n        if self.periodic and system.box is not None:\n            box = np.array(system.box[:3])\n            delta = pbc_dist_coordinate(delta, box)\n        lamb = np.sqrt(np.dot(delta, delta))\n        return [lamb]"),
